@@ -33,8 +33,35 @@ EVIDENCE = {
 
 
 def has_extra(pid):
-    return False
+    return pid == "C19"
 
 
 def run_extra(pid, ctx):
-    return None
+    """C19, stdout/stderr half: MIR reachability decided by z3 (lib/mir_purity.py),
+    a `reachable` verdict confirmed by running the native I/O probe with the
+    process's stdout and stderr captured."""
+    import json, os, hashlib
+    import mir_purity
+    res = mir_purity.run("/repo", ctx.scratch)
+    ev = dict(technique="call-graph reachability over the nightly MIR dump of /repo's working tree, z3 fixed-point (Datalog) engine",
+              **{k: res.get(k) for k in ("status", "functions", "call_edges", "entries", "sinks", "z3_s", "mir_dump_s", "mir_lines", "chain", "why")})
+    out = dict(evidence=ev, evaluations=1, distinct_nontrivial=1 if res.get("status") in ("reachable", "unreachable") else 0,
+               violations=[], inconclusive=[])
+    if res.get("status") == "error":
+        out["inconclusive"].append("MIR purity query: " + str(res.get("why")))
+    elif res.get("status") == "reachable":
+        probe = ctx.native_replay("io_probe", [])
+        printed = (probe.get("stdout") or "").strip()
+        ev["io_probe"] = dict(outcome=probe.get("outcome"), captured=printed[:300])
+        if printed:
+            os.makedirs(os.path.join("/verif/replays", pid), exist_ok=True)
+            hh = hashlib.sha1(printed.encode()).hexdigest()[:10]
+            path = os.path.join("/verif/replays", pid, f"io_probe-{hh}.json")
+            json.dump(dict(property=pid, harness="io_probe", vals=[], call_chain=res.get("chain"), sink_calls=res.get("sink_calls"),
+                           captured_output=printed[:2000]), open(path, "w"), indent=1)
+            chain = " -> ".join(res.get("chain") or [])
+            out["violations"].append(dict(name="io_probe", path=path,
+                                          msg=f"library writes to stdout/stderr: {chain} calls {sorted(set(sum(res.get('sink_calls', {}).values(), [])))}; captured {printed[:80]!r}"))
+        else:
+            out["inconclusive"].append("a printing call is reachable in the MIR call graph (%s) but the native probe captured no output" % (res.get("chain"),))
+    return out
